@@ -100,11 +100,6 @@ def showForest : List Node → List String
 def privModel (s : St) : String :=
   s!"fc={joinWith "," (s.forced.map showForced)} sc={joinWith "," (showForest s.roots)}"
 
-/-- a header with two scheduled or two forced changes (no runtime emits it): tied to the model only -/
-def malformed (t : Tree) (b : Nat) : Bool :=
-  let ds := t.anns.filter (·.blk = b)
-  decide ((ds.filter (·.forced)).length > 1) || decide ((ds.filter (fun d => !d.forced)).length > 1)
-
 structure Run where
   s : St
   p : Spec
